@@ -874,7 +874,7 @@ SEQMIX_OPS = {
     # op letter -> meaning; every op hands one or more packets to the gateway (or returns one for the caller to write)
     "legacy-hasseb": "SQTCEDF", "legacy-hasseb-async": "SQTCEDF",
     "legacy-tridonic": "C", "legacy-tridonic-sync": "SQTC", "legacy-tridonic-async": "SQTC",
-    "tridonic-hid": "SQTPp",
+    "tridonic-hid": "SQTPpX",      # X: a query given up by its caller (timeout) after the packet was written
 }
 
 
@@ -933,6 +933,16 @@ def _seqmix_driver(driver, start):
         r = _RIGS["tridonic-hid"] = TridonicHid(start=start)
 
         def do(op):
+            if op == "X":
+                import asyncio
+                r.writes = []
+                r.script = lambda data: []          # the gateway says nothing in time
+                out = _run(asyncio.wait_for(r.d.send(cmds["Q"]), 0.004))
+                if out[0] == "ok":
+                    raise _SeqmixFailed("send that nobody answered returned %r" % (out,))
+                if r.d.transaction_lock.locked():
+                    raise _SeqmixFailed("transaction lock still held after the caller gave up")
+                return list(r.writes)
             if op in "Pp":
                 r.writes = []
                 r.script = None
@@ -969,7 +979,8 @@ def case_seqmix(case):
         pk.extend((i, op, p) for p in got[1] if judged(p))
     vs = []
     names = {"S": "send(DAPC)", "Q": "send(QueryStatus)", "T": "send(Reset)", "C": "construct(Off)", "E": "enableSniffing()",
-             "D": "disableSniffing()", "F": "readFirmwareVersion()", "P": "power_supply(True)", "p": "power_supply(False)"}
+             "D": "disableSniffing()", "F": "readFirmwareVersion()", "P": "power_supply(True)", "p": "power_supply(False)",
+             "X": "send(QueryStatus) given up by its caller"}
     bad = [(i, op, p) for i, op, p in pk if not lo <= p[idx] <= hi]
     if bad:
         i, op, p = bad[0]
